@@ -32,4 +32,7 @@ def acCliqueRowOK (e : Nat × Table) : Bool := match acClique e.1 with | some b 
 
 def acLoopsRowOK (e : Nat × Table) : Bool := match acLoops e.1 with | some b => tableOK b e.2 | none => false
 
+def chimeraRowOK (e : Nat × Nat × Nat × List (Nat × Nat) × List (Nat × Nat)) : Bool :=
+  decide (chimeraTileEdges e.1 e.2.1 e.2.2.1 = e.2.2.2.1) && decide (chimeraInterEdges e.1 e.2.1 e.2.2.1 = e.2.2.2.2)
+
 end Gen
